@@ -10,14 +10,17 @@
    the last report was an error).  The model (Sources/FileWatch.v,
    instantiated with the harness's content table and an injective checksum) is
    replayed on the same history: file-system change, then the received events
-   as loop inputs, then the kernel's watch removals. *)
+   as loop inputs (plus the loop's own recheck token when one is waiting), then
+   the kernel's watch removals.  The first step of every case (OStart) is the
+   state after Watch() and the loop's first pass; operations applied between the
+   initial Value() and Watch() show up there. *)
 From Coq Require Import List NArith Bool.
 From Dials Require Import Base.Outcome Base.Runes.
 From Dials Require Export Sources.FileWatch.
 Import ListNotations.
 Open Scope N_scope.
 
-Inductive opkind := ORewrite | OTrunc | ORename | OK8s | OLink | ODelete | OReload.
+Inductive opkind := OStart | ORewrite | OTrunc | ORename | OK8s | OLink | ODelete | OReload.
 
 Record qstep := mkStep {
   q_op : opkind;
@@ -36,8 +39,8 @@ Record qstep := mkStep {
 }.
 
 Inductive c17case :=
-| Quiescent (cfg r0 : path) (w0 : list path) (steps : list qstep)
-| Racing (final : read_result) (view : option N) (lasterr dup ok : bool).
+| Quiescent (cfg r0 : path) (ino0 : N) (steps : list qstep)
+| Racing (hist : list (opkind * bool)) (final : read_result) (view : option N) (lasterr dup ok : bool).
 
 (* the harness's content table: ids below 100 decode to themselves *)
 Definition decode (c : content) : option value := if c <? 100 then Some c else None.
@@ -62,8 +65,14 @@ Definition view_val (st : lstate) : option N := option_map snd (view st).
 (* replay of one step in the model; returns the new state and watched inode *)
 Definition model_step (cfg : path) (st : lstate) (wino : N) (s : qstep) : lstate * N :=
   let f := mkFs (q_read s) (q_resolved s) true true in
-  let inputs := match q_op s with OReload => [IReload] | _ => map IEvent (q_events s) end in
-  let st1 := fold_left (m_step cfg f) inputs st in
+  let inputs := match q_op s with
+                | OReload => [IReload]
+                | OStart => [IRecheck]          (* the token watchLoop starts with *)
+                | _ => map IEvent (q_events s)
+                end in
+  let st1a := fold_left (m_step cfg f) inputs st in
+  (* a token left by a newly added watch is received before the loop is idle *)
+  let st1 := if st_recheck st1a then m_step cfg f st1a IRecheck else st1a in
   let wino1 := if negb (st_watching st) && st_watching st1 then q_ino s else wino in
   let st2 := if st_watching st1 && negb (st_dropped st1) && memN wino1 (q_dead s)
              then drop cfg cfg st1 else st1 in
@@ -123,22 +132,44 @@ Fixpoint walk (cfg : path) (st : lstate) (wino : N) (good : option N) (prev : qs
       (negb agree || mm, negb prop || pf, if negb prop then negb (winv cfg st') else wl)
   end.
 
-Definition first_step (cfg r0 : path) (w0 : list path) : qstep :=
-  mkStep OReload (Content 0) (Some r0) 1 [] [] false [] w0 1 0 (Some 0) false.
+(* what dials.Config's initial Source.Value() saw *)
+Definition first_step (r0 : path) : qstep :=
+  mkStep OStart (Content 0) (Some r0) 1 [] [] false [] [] 1 0 (Some 0) false.
+
+(* Known-finding class 2 (racing histories): the config path is switched to a
+   target in another directory (symlink into another directory, kubernetes
+   swap) and, before the loop has started to watch that directory, the target
+   alone is deleted, leaving a dangling symlink.  The loop's not-exist branch
+   does not follow the dangling link, so the directory in which the file is
+   later re-created is never watched and the re-creation is lost.  The class
+   is a predicate on the history: a directory switch directly followed (explicit
+   reloads aside) by a target-only deletion. *)
+Fixpoint class2_from (armed : bool) (h : list (opkind * bool)) : bool :=
+  match h with
+  | [] => false
+  | (o, dangling) :: r =>
+      (armed && dangling) ||
+      match o with
+      | OLink | OK8s => class2_from true r
+      | OReload => class2_from armed r
+      | _ => class2_from false r
+      end
+  end.
+(* the start-up layout may itself have been a fresh switch *)
+Definition class2 (h : list (opkind * bool)) : bool := class2_from true h.
 
 (* verdict codes: 0 pass; 1 implementation <> model though the property holds;
    3 the property fails; 11 the property fails, implementation = model, and the
-   model has lost a directory watch (class 1: DESIGN finding 12, repaired) *)
+   model has lost a directory watch (class 1: DESIGN finding 12, repaired);
+   12 a racing history of class 2 did not converge *)
 Definition check (c : c17case) : N :=
   match c with
-  | Quiescent cfg r0 w0 steps =>
+  | Quiescent cfg r0 ino0 steps =>
       let st0 := m_init cfg 0 0 r0 in
-      if negb (set_eqb w0 (st_watches st0)) then 1
-      else
-        let '(mm, pf, wl) := walk cfg st0 1 (Some 0) (first_step cfg r0 w0) steps in
-        if pf then (if negb mm && wl then 11 else 3)
-        else if mm then 1 else 0
-  | Racing final v lasterr dup ok =>
+      let '(mm, pf, wl) := walk cfg st0 ino0 (Some 0) (first_step r0) steps in
+      if pf then (if negb mm && wl then 11 else 3)
+      else if mm then 1 else 0
+  | Racing hist final v lasterr dup ok =>
       let conv :=
         match final with
         | Content c =>
@@ -148,7 +179,9 @@ Definition check (c : c17case) : N :=
             end
         | _ => match v with Some x => x <? 100 | None => false end
         end in
-      if conv && negb dup && ok then 0 else 3
+      if negb (negb dup && ok) then 3
+      else if conv then 0
+      else if class2 hist then 12 else 3
   end.
 
 Fixpoint run_from (i : N) (cs : list c17case) : list (N * N) :=
